@@ -56,58 +56,141 @@ class Abort(Exception):
 
 
 class DetSched:
-    """Lets exactly one worker thread run at a time; workers park at switch points."""
+    """Lets exactly one worker thread run at a time.  Workers park at switch points; the
+    thread that parks picks the next thread itself (following the schedule prefix, then the
+    chooser) and hands the turn over directly -- one semaphore per worker, so a step costs at
+    most one OS-level thread switch and none when the same thread continues."""
 
-    def __init__(self, n):
-        self.cv = threading.Condition()
-        self.turn = None            # tid allowed to run; None = controller
+    MAX_STEPS = 400
+
+    def __init__(self, n, prefix, chooser):
+        self.n = n
+        self.wsem = [threading.Semaphore(0) for _ in range(n)]
+        self.csem = threading.Semaphore(0)      # signals the controller (main thread)
+        self.fin = threading.Semaphore(0)       # one release per worker that left its job
         self.done = [False] * n
         self.live = True
         self.tls = threading.local()
         self.anomalies = []
         self.hung = False
         self.cs_count = 0           # number of critical sections completed so far (lock order)
+        self.prefix = list(prefix)
+        self.chooser = chooser
+        self.schedule = []          # thread chosen at each step
+        self.choices = []           # enabled threads at each step
 
     def tid(self):
         return getattr(self.tls, "tid", None)
 
+    def pick(self):
+        en = [i for i in range(self.n) if not self.done[i]]
+        if not en:
+            return None
+        k = len(self.schedule)
+        if k >= self.MAX_STEPS:
+            self.anomalies.append("more than %d steps" % self.MAX_STEPS)
+            return None
+        if k < len(self.prefix):
+            t = self.prefix[k]
+            if t not in en:
+                self.anomalies.append("schedule names finished thread %d at step %d" % (t, k))
+                return None
+        else:
+            t = self.chooser(en)
+        self.choices.append(en)
+        self.schedule.append(t)
+        return t
+
+    def abort_run(self, why):
+        self.anomalies.append(why)
+        self.live = False
+        self.csem.release()
+        raise Abort()
+
     def sp(self):
-        """switch point (called by a worker): hand control back and wait for the next turn"""
+        """switch point (called by a worker)"""
         t = self.tid()
         if t is None or not self.live:
             return
-        with self.cv:
-            self.turn = None
-            self.cv.notify_all()
-            while self.turn != t:
-                if not self.live:
-                    raise Abort()
-                self.cv.wait(0.5)
+        tls = self.tls
+        if not tls.warm:
+            # first switch point of the thread: park; the code before it is thread-local
+            tls.warm = True
+            self.csem.release()
+        else:
+            nxt = self.pick()
+            if nxt is None:
+                self.live = False
+                self.csem.release()
+                raise Abort()
+            if nxt == t:
+                return
+            self.wsem[nxt].release()
+        self.wsem[t].acquire()
+        if not self.live:
+            raise Abort()
 
     def finish(self, t):
-        with self.cv:
-            self.done[t] = True
-            self.turn = None
-            self.cv.notify_all()
+        self.done[t] = True
+        try:
+            if not self.live:
+                return
+            if not self.tls.warm:
+                self.tls.warm = True
+                self.csem.release()
+                return
+            nxt = self.pick()
+            if nxt is None:
+                self.csem.release()
+            else:
+                self.wsem[nxt].release()
+        finally:
+            self.fin.release()
 
-    def step(self, t, timeout=5.0):
-        """controller: let worker t run to its next switch point (or to its end)"""
-        with self.cv:
-            self.turn = t
-            self.cv.notify_all()
-            waited = 0.0
-            while self.turn is not None:
-                self.cv.wait(0.5)
-                waited += 0.5
-                if self.turn is not None and waited >= timeout:
-                    self.hung = True
-                    return False
+    def wait_controller(self, timeout=8.0):
+        if not self.csem.acquire(timeout=timeout):
+            self.hung = True
+            return False
         return True
 
     def shutdown(self):
-        with self.cv:
-            self.live = False
-            self.cv.notify_all()
+        self.live = False
+        for s in self.wsem:
+            s.release()
+
+
+class Pool:
+    """Persistent worker threads (thread creation is the dominant cost of a run otherwise)."""
+
+    def __init__(self):
+        self.workers = []
+
+    def ensure(self, n):
+        import queue
+        while len(self.workers) < n:
+            q = queue.SimpleQueue()
+            t = threading.Thread(target=self._loop, args=(q,), daemon=True)
+            t.start()
+            self.workers.append((t, q))
+
+    @staticmethod
+    def _loop(q):
+        while True:
+            job = q.get()
+            if job is None:
+                return
+            job()
+
+    def submit(self, k, job):
+        self.workers[k][1].put(job)
+
+    def discard(self):
+        for _, q in self.workers:
+            q.put(None)
+        self.workers = []
+
+
+POOL = Pool()
 
 
 class ILock:
@@ -122,8 +205,7 @@ class ILock:
         self.sched.sp()
         if not self.real.acquire(False):
             if self.sched.tid() is not None and self.sched.live:
-                self.sched.anomalies.append("lock held by a parked thread")
-                raise Abort()
+                self.sched.abort_run("channel lock held by a parked thread (a switch point inside a critical section)")
             self.real.acquire()
         self.owner = threading.get_ident()
         return True
@@ -293,11 +375,11 @@ def do_op(chan, stub, sched, op):
 class Run:
     """One execution of thread programs on fresh real objects under a schedule prefix."""
 
-    def __init__(self, classes, init, progs):
+    def __init__(self, classes, init, progs, prefix, chooser):
         TChan, StubTransport = classes
         act, w, p, buf, th = init
         n = len(progs)
-        self.sched = sched = DetSched(n)
+        self.sched = sched = DetSched(n, prefix, chooser)
         self.stub = stub = StubTransport(sched)
         self.chan = chan = TChan(CHANID)
         chan._set_transport(stub)
@@ -318,20 +400,15 @@ class Run:
         self.progs = progs
         self.results = [[] for _ in progs]
         self.errors = []
-        self.threads = []
-        # oracle bookkeeping: (thread, op index, op, wire length and flags at the start of the op)
+        # oracle bookkeeping: (thread, op index, op, (wire length, closed, eof_sent) at the start of the op,
+        # wire length at its end, result)
         self.op_log = []
-        for i in range(n):
-            t = threading.Thread(target=self.worker, args=(i,), daemon=True)
-            self.threads.append(t)
-        for t in self.threads:
-            t.start()
 
     def worker(self, i):
         sched = self.sched
         sched.tls.tid = i
+        sched.tls.warm = False
         try:
-            sched.sp()      # start parked
             for j, op in enumerate(self.progs[i]):
                 chan = self.chan
                 d = chan.__dict__
@@ -352,26 +429,38 @@ class Run:
         except BaseException as e:  # noqa
             self.errors.append(repr(e))
         finally:
+            sched.tls.tid = None
             sched.finish(i)
 
-    def warm_up(self):
-        # every thread runs from its start to its first switch point (thread-local code only)
-        for i in range(len(self.progs)):
-            if not self.sched.step(i):
-                return False
-        return True
-
-    def enabled(self):
-        return [i for i, d in enumerate(self.sched.done) if not d]
-
-    def step(self, t):
-        return self.sched.step(t)
-
-    def close(self):
+    def go(self):
+        """start the workers (each runs thread-local code up to its first switch point), then
+        run the schedule to completion"""
+        sched = self.sched
+        n = len(self.progs)
+        POOL.ensure(n)
+        started = 0
+        ok = True
+        for i in range(n):
+            POOL.submit(i, (lambda i=i: self.worker(i)))
+            started += 1
+            if not sched.wait_controller():
+                ok = False
+                break
+        if ok and sched.live:
+            first = sched.pick()
+            if first is not None:
+                sched.wsem[first].release()
+                sched.wait_controller(timeout=20.0)
+        # tear down
         self.stub.recording = False
-        self.sched.shutdown()
-        for t in self.threads:
-            t.join(2.0)
+        sched.shutdown()
+        lost = False
+        for _ in range(started):
+            if not sched.fin.acquire(timeout=3.0):
+                lost = True
+        if lost or sched.hung:
+            sched.hung = True
+            POOL.discard()      # a worker is stuck inside the code under test: start over with fresh threads
         self.chan.__dict__["_sched"] = None
 
     def outcome(self):
@@ -391,36 +480,11 @@ class Run:
 
 
 def execute(classes, init, progs, prefix, chooser):
-    """Run to completion: follow `prefix`, then let `chooser(enabled)` pick.  Returns
-    (schedule, enabled sets per step, run) ; run.close() already called."""
-    run = Run(classes, init, progs)
-    sched_taken = []
-    choices = []
-    ok = run.warm_up()
-    try:
-        while ok:
-            en = run.enabled()
-            if not en:
-                break
-            k = len(sched_taken)
-            if k < len(prefix):
-                t = prefix[k]
-                if t not in en:
-                    run.sched.anomalies.append("replayed schedule names finished thread %d at step %d" % (t, k))
-                    break
-            else:
-                t = chooser(en)
-            choices.append(en)
-            sched_taken.append(t)
-            ok = run.step(t)
-            if run.sched.anomalies:
-                break
-            if len(sched_taken) > 400:
-                run.sched.anomalies.append("more than 400 steps")
-                break
-    finally:
-        run.close()
-    return sched_taken, choices, run
+    """Run to completion: follow `prefix`, then let `chooser(enabled)` pick.
+    Returns (schedule, enabled sets per step, run)."""
+    run = Run(classes, init, progs, prefix, chooser)
+    run.go()
+    return list(run.sched.schedule), list(run.sched.choices), run
 
 
 def enumerate_schedules(classes, init, progs, cap, rng, extra_random):
@@ -488,7 +552,7 @@ def oracle(ctx, init, progs, schedule, run, wire):
     handled = [e for e in run.op_log if e[2][0] == "OPeerClose"]
     unlinked = any(e[2][0] == "OUnlink" for e in run.op_log)
     if handled and not unlinked and init[0]:
-        if codes.count(97) != 1:
+        if codes.count(97) == 0:
             ctx.fail("peer-close-not-answered", "a peer CLOSE on an open channel was not answered by our CLOSE",
                      case=case, expected="exactly one CLOSE", observed=obs)
         if in_map:
@@ -595,13 +659,43 @@ def coq_case(init, progs, schedule):
                                               coq_progs(progs), coq(list(schedule)))
 
 
+CASE_T = "((bool * Z * Z * Z * Z) * list (list op) * list Z)"
+SET_T = "((bool * Z * Z * Z * Z) * list (list op) * Z)"
+
+
+def coq_set(init, progs, cap):
+    return "((%s, %d, %d, %d, %d), %s, %d)" % (coq(bool(init[0])), init[1], init[2], init[3], init[4],
+                                              coq_progs(progs), cap)
+
+
+def dedup(outs):
+    seen, idx = [], []
+    for o in outs:
+        if o in seen:
+            idx.append(seen.index(o))
+        else:
+            idx.append(len(seen))
+            seen.append(o)
+    flat = []
+    for o in seen:
+        flat += o + [-8]
+    rle = []
+    for x in idx:
+        if rle and rle[-2] == x:
+            rle[-1] += 1
+        else:
+            rle += [x, 1]
+    return rle + [-9] + flat
+
+
 def run(ctx):
     rng = ctx.rng
-    ctx.rule = ("thread programs: 14 fixed sets + seeded random sets of 2-3 threads x 1-3 ops over {close, "
+    ctx.rule = ("thread programs: %d fixed sets + seeded random sets of 2-3 threads x 1-3 ops over {close, "
                 "shutdown(0|1|2), send, send_stderr, recv, peer EOF/CLOSE/FAILURE/WINDOW_ADJUST/DATA, _unlink}; for "
-                "each set all complete schedules are enumerated depth-first on real Channel objects (cap per set, "
-                "then seeded random walks); a case = (initial state, programs, schedule); non-trivial when at least "
-                "two threads take steps and at least one message reaches the wire")
+                "each set all complete schedules are enumerated depth-first on real Channel objects (up to a cap per "
+                "set, then seeded random walks) and the model enumerates the same tree itself (run_set) or runs the "
+                "given schedule (run_case); a case = (initial state, programs, schedule); non-trivial when at least "
+                "two threads take steps and at least one message reaches the wire" % len(FIXED))
     ctx.trusted += ["model coq/Model/C22.v is hand-written; tied to channel.py / transport.py dispatch by per-schedule "
                     "comparison under the deterministic scheduler (vm_compute of the model's own run function)",
                     "atomicity of the code between switch points (channel lock held; checked by the lock-discipline "
@@ -611,30 +705,36 @@ def run(ctx):
     ctx.prove()
     classes = make_classes()
 
-    budget = 40000 if ctx.thorough else 5000
-    cap_fixed = 6000 if ctx.thorough else 1300
+    budget = 60000 if ctx.thorough else 6000
+    cap_fixed = 6000 if ctx.thorough else 1000
     cap_rand = 1500 if ctx.thorough else 250
-    cases = []       # (init, progs, schedule, outcome)
+    set_cases = []      # (init, progs, cap, expected)
+    walk_cases = []     # (init, progs, schedule, outcome)
     sets = [(i, p, cap_fixed) for i, p in FIXED]
     known = 0
     eof_after_close = 0
     nsets = 0
-    truncated = 0
+    total = 0
+    complete_sets = 0
     anomalies = []
-    while len(cases) < budget:
+    while total < budget:
         if sets:
             init, progs, cap = sets.pop(0)
         else:
             init, progs = gen_case(rng)
             cap = cap_rand
         nsets += 1
-        n_here = 0
-        for schedule, r, how in enumerate_schedules(classes, init, progs, cap, rng, extra_random=cap // 5):
-            n_here += 1
+        dfs_outs = []
+        set_ok = True
+        for schedule, r, how in enumerate_schedules(classes, init, progs, cap, rng, extra_random=cap // 10):
+            total += 1
             if r.sched.anomalies or r.sched.hung or r.errors:
                 anomalies.append({"init": list(init), "programs": progs, "schedule": schedule,
                                   "anomalies": r.sched.anomalies, "hung": r.sched.hung, "errors": r.errors[:2]})
                 ctx.count(("anomaly", init, progs, tuple(schedule)), nontrivial=False, kind="anomaly")
+                set_ok = False
+                if len(anomalies) > 20:
+                    break
                 continue
             wire, out = r.outcome()
             verdict = oracle(ctx, init, progs, schedule, r, wire)
@@ -642,35 +742,57 @@ def run(ctx):
                 known += 1
             elif verdict == "eof-after-close":
                 eof_after_close += 1
-            cases.append((init, progs, schedule, out))
             ctx.count((init, progs, tuple(schedule)), nontrivial=len(set(schedule)) > 1 and len(wire) > 0,
                       kind="%d-threads/%s" % (len(progs), how))
-            if how == "random":
-                truncated += 1
-            if len(cases) >= budget:
-                break
+            if how == "dfs":
+                dfs_outs.append(out)
+            else:
+                walk_cases.append((init, progs, schedule, out))
+        if set_ok:
+            set_cases.append((init, progs, cap, dedup(dfs_outs)))
+            if len(dfs_outs) < cap:
+                complete_sets += 1
+        if len(anomalies) > 20:
+            break
     ctx.exhaustive = False
-    ctx.notes.append("%d program sets, %d schedules executed on real Channel objects (%d from random walks after the "
-                     "per-set cap); known finding observed on %d schedules; EOF emitted after CLOSE (shutdown_write "
-                     "racing close, same root cause, not part of the property text) on %d schedules" % (
-                         nsets, len(cases), truncated, known, eof_after_close))
+    ctx.traces = total
+    ctx.log("executed %d schedules of %d program sets on the implementation" % (total, nsets))
+    ctx.notes.append("%d program sets (%d enumerated completely), %d schedules executed on real Channel objects (%d by "
+                     "random walks beyond the per-set cap); known finding observed on %d schedules; EOF emitted after "
+                     "CLOSE (shutdown_write racing close, same root cause, outside the property text) on %d schedules" % (
+                         nsets, complete_sets, total, len(walk_cases), known, eof_after_close))
     for a in anomalies[:3]:
         ctx.disagree("deterministic schedule could not be executed on the implementation (lock held across a switch "
                      "point, hang, or unexpected exception)", case=a)
-    # the known finding must be reproduced on the real code every run (witness schedule of the refutation)
     if known == 0:
-        ctx.notes.append("data-after-close was NOT observed on this tree (the known finding may have been repaired)")
+        ctx.notes.append("data-after-close was NOT observed on this tree (the known finding may have been repaired; "
+                         "the model then no longer mirrors the code)")
 
-    bad = ctx.model_mismatches("run_case", "((bool * Z * Z * Z * Z) * list (list op) * list Z)",
-                               [(coq_case(i, p, s), o) for i, p, s, o in cases], shard=250)
-    for k in bad[:3]:
-        i, p, s, o = cases[k]
-        ctx.disagree("implementation outcome differs from the model on this schedule",
-                     case={"init": list(i), "programs": p, "schedule": s}, impl=o)
-    if cases:
-        i, p, s, o = cases[0]
-        ctx.sample({"init": list(i), "programs": p, "schedule": s, "impl_outcome": o})
-        i, p, s, o = cases[len(cases) // 2]
+    allc = [("(CSet %s)" % coq_set(i, p, c), e) for i, p, c, e in set_cases]
+    allc += [("(CWalk %s)" % coq_case(i, p, s), o) for i, p, s, o in walk_cases]
+    # one batch of at most 8 files (the start-up of a coqc process dominates the cost of a file)
+    order = sorted(range(len(allc)), key=lambda k: -len(allc[k][1]))
+    nshard = 8
+    shard = max(1, (len(allc) + nshard - 1) // nshard)
+    # deal the big cases round-robin so that the files have similar sizes
+    dealt = [order[j::nshard] for j in range(nshard)]
+    perm = [k for grp in dealt for k in grp]
+    bad = ctx.model_mismatches("run_any", "cinput", [allc[k] for k in perm], shard=shard)
+    for b in bad[:3]:
+        k = perm[b]
+        if k < len(set_cases):
+            i, p, c, e = set_cases[k]
+            ctx.disagree("the outcomes of the enumerated schedules differ from the model's enumeration of the same "
+                         "tree", case={"init": list(i), "programs": p, "cap": c}, impl=e[:400])
+        else:
+            i, p, s_, o = walk_cases[k - len(set_cases)]
+            ctx.disagree("implementation outcome differs from the model on this schedule",
+                         case={"init": list(i), "programs": p, "schedule": s_}, impl=o)
+    if set_cases:
+        i, p, c, e = set_cases[0]
+        ctx.sample({"init": list(i), "programs": p, "schedules": "all (depth-first)", "impl_outcomes": e})
+    if walk_cases:
+        i, p, s, o = walk_cases[0]
         ctx.sample({"init": list(i), "programs": p, "schedule": s, "impl_outcome": o})
 
 
@@ -688,7 +810,6 @@ def replay(ctx, rep):
         wire, out = r.outcome()
         ctx.count(("replay", init, progs, tuple(taken)), kind="replay")
         oracle(ctx, init, progs, taken, r, wire)
-    bad = ctx.model_mismatches("run_case", "((bool * Z * Z * Z * Z) * list (list op) * list Z)",
-                               [(coq_case(init, progs, taken), out)])
+    bad = ctx.model_mismatches("run_any", "cinput", [("(CWalk %s)" % coq_case(init, progs, taken), out)])
     if bad:
         ctx.disagree("implementation outcome differs from the model on the replayed schedule", case=case, impl=out)
